@@ -172,6 +172,28 @@ HARMLESS = [
         ("        except BaseException as e:  # noqa\n            if _being_cancelled():  # Never swallow our cancellation\n                raise\n            logging.exception(\"Failed to run %s, retrying\", self.func)",
          "        except BaseException as err:  # noqa\n            if _being_cancelled():\n                raise\n            logging.exception(\"Failed to run %s (%r), retrying\", self.func, err)"),
     ], ['C03', 'C07', 'C08']),
+    ('filelock: acquire_ctx forwards its arguments by keyword', 'aiuti/filelock.py', [
+        ("        if not self.acquire(blocking, timeout, poll_interval):\n            raise TimeoutError(\"Failed to acquire file lock:\", self._lock_file)",
+         "        got = self.acquire(blocking=blocking, timeout=timeout, poll_interval=poll_interval)\n        if not got:\n            raise TimeoutError(\"Failed to acquire file lock:\", self._lock_file)"),
+    ], ['C12', 'C13']),
+    ('gather_excs: filter written with a one-element tuple', 'aiuti/asyncio.py', [
+        ("        if isinstance(res, only):", "        if isinstance(res, (only,)):"),
+    ], ['C20']),
+    ('batcher: failure handler logs how many futures are left', 'aiuti/asyncio.py', [
+        ("            logger.debug(\"Exception while processing batch\", exc_info=True)",
+         "            logger.debug(\"Exception while processing batch of %d (%d unanswered)\", len(args), len(futs), exc_info=True)"),
+    ], ['C04', 'C10']),
+    ('buffer: retry log names the type of the callable', 'aiuti/asyncio.py', [
+        ("            logging.exception(\"Failed to run %s, retrying\", self.func)",
+         "            logging.exception(\"Failed to run %s (%s), retrying\", self.func, type(self.func))"),
+    ], ['C03', 'C07']),
+    ('exhaust: drained through a named deque', 'aiuti/itertools.py', [
+        ("    deque(iterable, maxlen=0)", "    sink = deque(iterable, maxlen=0)\n    del sink"),
+    ], ['C18']),
+    ('parsing: string test written as exact type or instance', 'aiuti/parsing.py', [
+        ("        if isinstance(pair, str):\n            try:\n                k, v = pair.split(sep, 1)",
+         "        if type(pair) is str or isinstance(pair, str):\n            try:\n                k, v = pair.split(sep, 1)"),
+    ], ['C19']),
 ]
 
 
